@@ -547,7 +547,20 @@ class Translator:
             self.locals[-1][p['id']] = t
             params.append(t.decl(pname))
         body = self.body_of(d)
-        rng = d.get('range', {})
+        seg = self.contract.get('segment')
+        if seg:
+            # a statement of the function body verified on its own (a Hoare triple over one phase of a long function):
+            # the statement is located mechanically, the enclosing function's locals it uses become by-reference parameters
+            body, free = self.find_segment(body, seg, cname)
+            ret = CT('void')
+            self.ret_type = ret
+            for (vid, vname, vq, vdq) in free:
+                t0 = self.local_type(vid) or self.ctype(vq, vdq)
+                t = CT(t0.base, t0.ptr, True, t0.const, t0.cxx) if not (t0.ref or t0.dims) else t0
+                self.locals[-1][vid] = t
+                if vname not in [re.split(r'[ *]', q)[-1] for q in params]:
+                    params.append(t.decl(vname))
+        rng = (body if seg else d).get('range', {})
         self.spans[cname] = ((rng.get('begin', {}).get('file') or d.get('loc', {}).get('file')),
                              rng.get('begin', {}).get('line') or d.get('loc', {}).get('line'),
                              rng.get('end', {}).get('line'))
@@ -560,6 +573,8 @@ class Translator:
         if d['kind'] == 'CXXConstructorDecl':
             inits = self.ctor_inits(d)
         nstat = len(getattr(self, 'file_statics', []))
+        if seg and body.get('kind') != 'CompoundStmt':
+            body = {'kind': 'CompoundStmt', 'inner': [body]}
         btext = self.block(body, pre=inits)
         contract_now = dict(self.contract)
         if self.contract.get('statics_value_initialised'):
@@ -574,6 +589,75 @@ class Translator:
         self.funcs[cname] = text
         self.func_order.append(cname)
         return cname
+
+    def find_segment(self, body, seg, cname):
+        """seg = {'kind': stmt kind, 'mentions': [names that must all occur], 'excludes': [names that must not occur]}.
+        Exactly one innermost statement must match, else the extraction is refused (exit 2, never a verdict)."""
+        def names_of(x, acc):
+            if isinstance(x, dict):
+                if x.get('kind') in ('DeclRefExpr',) and isinstance(x.get('referencedDecl'), dict):
+                    acc.add(x['referencedDecl'].get('name'))
+                if x.get('kind') == 'MemberExpr':
+                    acc.add(x.get('name'))
+                if x.get('kind') == 'VarDecl':
+                    acc.add(x.get('name'))
+                for c in x.get('inner', []):
+                    names_of(c, acc)
+            return acc
+        cands = []
+
+        def walk(x):
+            if not isinstance(x, dict):
+                return False
+            below = False
+            for c in x.get('inner', []):
+                below = walk(c) or below
+            if below:
+                return True
+            if x.get('kind') == seg['kind']:
+                nm = names_of(x, set())
+                if all(m in nm for m in seg.get('mentions', [])) and not any(m in nm for m in seg.get('excludes', [])):
+                    cands.append(x)
+                    return True
+            return False
+        walk(body)
+        if len(cands) != 1:
+            raise astdump.ExtractionError('segment %s: %d statements of kind %s mention %s (code moved or rewritten?)'
+                                          % (cname, len(cands), seg['kind'], seg.get('mentions')))
+        node = cands[0]
+        declared, used, order = set(), {}, []
+
+        def scan(x, loop_depth):
+            if not isinstance(x, dict):
+                return
+            k = x.get('kind')
+            if k in ('VarDecl', 'BindingDecl'):
+                declared.add(x.get('id'))
+            if k == 'ReturnStmt':
+                raise Unsupported('segment %s contains a return statement' % cname)
+            if k in ('BreakStmt', 'ContinueStmt') and loop_depth == 0:
+                raise Unsupported('segment %s leaves the enclosing loop (%s)' % (cname, k))
+            if k == 'DeclRefExpr':
+                r = x.get('referencedDecl') or {}
+                if r.get('kind') in ('VarDecl', 'ParmVarDecl') and r.get('id') not in used:
+                    used[r['id']] = (r['id'], r.get('name'), (r.get('type') or {}).get('qualType'), (r.get('type') or {}).get('desugaredQualType'))
+                    order.append(r['id'])
+            d2 = loop_depth + (1 if k in ('ForStmt', 'WhileStmt', 'DoStmt', 'CXXForRangeStmt') else 0)
+            if k == 'LambdaExpr':
+                return
+            for c in x.get('inner', []):
+                scan(c, d2 + (1 if k == 'SwitchStmt' and False else 0))
+        scan(node, 0)
+        skip = set(self.u.get('drop_locals', []))
+        free = [used[i] for i in order if i not in declared and used[i][1] not in skip
+                and self.u.get('globals', {}).get(used[i][1]) is None and self.decl_is_local(i)]
+        self.dropped.add('segment %s: statement at line %s..%s of the enclosing function; enclosing locals passed by reference: %s'
+                         % (cname, node.get('range', {}).get('begin', {}).get('line'), node.get('range', {}).get('end', {}).get('line'),
+                            ', '.join(f[1] for f in free) or '(none)'))
+        return node, free
+
+    def decl_is_local(self, did):
+        return True
 
     def ctor_inits(self, d):
         out = ''
@@ -868,6 +952,10 @@ class Translator:
             if len(args) >= 1:
                 m = self.addr(self.expr(args[0]))
                 self.defers[-1].append('verif_mutex_unlock(%s);\n' % m)
+                if qt.startswith('unique_lock'):
+                    # the lock object is passed on (condition variable wait): keep it as a pointer to its mutex
+                    self.locals[-1][v['id']] = CT('verif_mutex', ptr=1)
+                    return 'verif_mutex *%s = %s;\nverif_mutex_lock(%s);\n' % (v['name'], m, m)
                 self.locals[-1][v['id']] = CT('char')
                 return 'verif_mutex_lock(%s);\n' % m
             raise Unsupported('lock guard without a mutex')
@@ -1096,6 +1184,20 @@ class Translator:
     def e_GNUNullExpr(self, n): return '0'
     def e_CXXBoolLiteralExpr(self, n): return '1' if n['value'] else '0'
     def e_ImplicitValueInitExpr(self, n): return '0'
+
+    def e_CXXNewExpr(self, n):
+        # `new T[n]` / `new T(...)`: only through a unit-supplied allocation model (key new[]:@<C type> / new:@<C type>)
+        t = self.ntype(n)
+        elem = CT(t.base, max(t.ptr - 1, 0)).c().strip()
+        if n.get('isArray'):
+            bind = self.calls.get('new[]:@' + elem)
+            if bind is None:
+                raise Unsupported('array new of %s in %s without an allocation model' % (elem, self.cur_fn))
+            size = next((c for c in n.get('inner', []) if c.get('kind') not in ('CXXConstructExpr', 'InitListExpr')), None)
+            if size is None:
+                raise Unsupported('array new without a size expression in %s' % self.cur_fn)
+            return '%s(%s)' % (bind, self.expr(size))
+        raise Unsupported('new expression of %s in %s' % (elem, self.cur_fn))
 
     def e_CXXDefaultInitExpr(self, n):
         raise Unsupported('default member initializer in expression')
@@ -1905,6 +2007,18 @@ class Translator:
 
     def emit(self):
         self.complete_structs()
+        # fields a contract talks about even when the (changed) code no longer touches them
+        for q, names in self.u.get('need_fields', {}).items():
+            d = self.record_decl(q)
+            if d is None:
+                raise astdump.ExtractionError('record %s not found for need_fields' % q)
+            sname = self.base_type(norm(q))
+            have = {c['name']: c for c in d.get('inner', []) if c.get('kind') == 'FieldDecl'}
+            for nm in names:
+                if nm not in have:
+                    raise astdump.ExtractionError('field %s::%s not found (renamed?)' % (q, nm))
+                c = have[nm]
+                self.add_field(sname[7:], nm, self.ctype(c['type']['qualType'], c['type'].get('desugaredQualType')))
         out = ['/* generated by cxx2c from %s -- do not edit */' % self.source]
         out.append(self.u.get('prelude', ''))
         for en, (under, vals) in self.enums.items():
@@ -1928,6 +2042,14 @@ class Translator:
                     visit(t.base[7:], stack + (s,))
             done.add(s)
             order.append(s)
+        # model-only structs (e.g. the pair type of a hash map modelled as a vector) take part in the ordering
+        for sn, fields in self.u.get('synthetic_structs', {}).items():
+            d = {}
+            for fname, ftxt in fields:
+                m = re.match(r'^(.*?)\s*(\**)$', ftxt.strip())
+                d[fname] = CT(m.group(1), ptr=len(m.group(2)))
+            self.structs[sn] = d
+            self.struct_order.append(sn)
         for s in list(self.struct_order):
             visit(s)
         extra = self.u.get('struct_extra', {})
@@ -1952,6 +2074,8 @@ class Translator:
                 raise Unsupported('cannot order structs and vector models: %s' % pending)
             s = pending.pop(0)
             need = [t.base for t in self.structs[s].values() if t.ptr == 0 and not t.ref and t.base in vecs and t.base not in emitted_vecs]
+            need += [t.base for t in self.structs[s].values() if t.ptr == 0 and not t.ref and t.base.startswith('struct ')
+                     and t.base[7:] in self.structs and t.base[7:] not in defined and t.base[7:] not in predefined]
             if need:
                 pending.append(s)
                 continue
